@@ -311,7 +311,34 @@ func checkC08(c *Check) {
 					}
 				}
 			}
-			c.Ob("R3", "provider record updated only if the lease scan reported no error", call.Pos(), ok && instrDominates(scan, call), "update is not dominated by the scan's err == nil")
+			okDom := ok && instrDominates(scan, call)
+			if !okDom && scan.Parent() != call.Parent() && scan.Parent().Parent() == nil && isNewFunc(scan.Parent()) {
+				// the scan lives in a new helper that hands back the callback's error: the update (wherever it now
+				// sits) must be on the nil edge of that helper's call
+				h := scan.Parent()
+				handsBack := len(h.Blocks) > 0
+				capt := map[ssa.Value]bool{}
+				if mc, isMC := scan.Common().Args[len(scan.Common().Args)-1].(*ssa.MakeClosure); isMC {
+					for _, b := range mc.Bindings {
+						capt[b] = true
+					}
+				}
+				for _, b := range h.Blocks {
+					if r, isR := b.Instrs[len(b.Instrs)-1].(*ssa.Return); isR && reachableFrom(scan, r) {
+						res := r.Results[len(r.Results)-1]
+						ld, isLd := res.(*ssa.UnOp)
+						if !isLd || !capt[ld.X] || !instrDominates(scan, ld) {
+							handsBack = false
+						}
+					}
+				}
+				hc, _ := liftTo(up, scan).(*ssa.Call)
+				lu := liftTo(up, call)
+				if handsBack && hc != nil && lu != nil && okEdgeAt(lu.Block(), hc) {
+					okDom = true
+				}
+			}
+			c.Ob("R3", "provider record updated only if the lease scan reported no error", call.Pos(), okDom, "update is not dominated by the scan's err == nil")
 			c.Ob("R3", "provider record updated with the message's content", call.Pos(), strings.HasSuffix(Sym(userArgs(call)[0]), "*p:msg") || strings.Contains(Sym(userArgs(call)[0]), "p:msg"), Sym(userArgs(call)[0]))
 		}
 		c.Analysed(fnName(cb))
@@ -362,9 +389,10 @@ func checkC08(c *Check) {
 			}
 			nm++
 			a := allArgs(call)
-			c.Ob("R3", "each order is matched against the message's new attributes", call.Pos(), Sym(a[1]) == "*fv:msg.Attributes" && strings.Contains(Sym(a[0]), "GetOrder(") && strings.Contains(Sym(a[0]), "OrderID(types.Lease.ID(p:lease))"), short(Sym(a[0]))+" vs "+Sym(a[1]))
+			c.Ob("R3", "each order is matched against the message's new attributes", call.Pos(), (Sym(a[1]) == "*fv:msg.Attributes" || Sym(a[1]) == "*p:msg.Attributes") && strings.Contains(Sym(a[0]), "GetOrder(") && strings.Contains(Sym(a[0]), "OrderID(types.Lease.ID(p:lease))"), short(Sym(a[0]))+" vs "+Sym(a[1]))
 			// guards: exactly provider equality, active state, order found
 			extra := 0
+			extraWhy := ""
 			need := map[string]bool{"prov": false, "active": false}
 			active := l.constVal("x/market/types", "LeaseActive").ExactString()
 			for _, f := range factsAt(call.Block()) {
@@ -373,16 +401,17 @@ func checkC08(c *Check) {
 					y = Sym(f.Y)
 				}
 				switch {
-				case f.Op == "eq" && ((x == "fv:prov.Owner" && y == "types.Lease.ID(p:lease).Provider") || (y == "fv:prov.Owner" && x == "types.Lease.ID(p:lease).Provider")):
+				case f.Op == "eq" && ((isProvOwner(x) && y == "types.Lease.ID(p:lease).Provider") || (isProvOwner(y) && x == "types.Lease.ID(p:lease).Provider")):
 					need["prov"] = true
 				case f.Op == "eq" && x == "p:lease.State" && y == active:
 					need["active"] = true
 				case strings.Contains(x, "found") || strings.Contains(x, "GetOrder("):
 				default:
 					extra++
+					extraWhy += " [" + f.Op + " " + short(x) + " | " + short(y) + "]"
 				}
 			}
-			c.Ob("R3", "attribute check applies to every active lease of this provider (no narrower condition)", call.Pos(), need["prov"] && need["active"] && extra == 0, "the check is skipped for some active leases of the provider")
+			c.Ob("R3", "attribute check applies to every active lease of this provider (no narrower condition)", call.Pos(), need["prov"] && need["active"] && extra == 0, "the check is skipped for some active leases of the provider"+extraWhy)
 			// mismatch records an error
 			mism := false
 			for _, rr := range *call.(*ssa.Call).Referrers() {
@@ -835,4 +864,10 @@ func sliceParts(v ssa.Value) ([]string, bool) {
 		return nil, false
 	}
 	return parts, true
+}
+
+// isProvOwner: the owner of the provider record the handler fetched for the message's owner (seen as the captured
+// variable, or - through a new helper's parameter - as the keeper call that fetched it).
+func isProvOwner(s string) bool {
+	return s == "fv:prov.Owner" || s == "p:prov.Owner" || (strings.HasSuffix(s, ")#0.Owner") && strings.Contains(s, "IKeeper.Get(p:ms.provider, ") && strings.Contains(s, "p:msg.Owner"))
 }
